@@ -84,6 +84,8 @@ def check_case(ctx, case):
         for r in opts["reserved"]:
             src += "hostname %s\n description link to %s and %s-x\n" % (r, r, r)
             src += "password %s\nsnmp-server community %s ro\n username %s secret 5 %s\n" % (r, r, r, r)
+            if r.lower() != r:
+                src += "password %s\nsnmp-server community %s ro\n enable password %s\n" % (r.lower(), r.lower(), r.upper())
     combined = run_one(nc, opts, feats, src, undo)
     chained = src
     for f in ORDER:
